@@ -421,6 +421,12 @@ func c06Sess(f []string) string {
 		case ev[0] == 't':
 			tid, _ := strconv.Atoi(ev[1:])
 			s.ipcp.FSM().Input(ppp.TermReq, uint8(tid), nil)
+		case ev == "T":
+			// the restart timer expires while negotiating (the generator keeps the number of time-outs per
+			// case below Max-Configure, so the restart counter is positive: retransmission)
+			if st := s.ipcp.FSM().State(); st == ppp.ReqSent || st == ppp.AckRcvd || st == ppp.AckSent {
+				s.ipcp.FSM().Timeout()
+			}
 		case ev == "o":
 			// the restart timer expires while Stopping (after the subscriber's Terminate-Request)
 			if s.ipcp.FSM().State() == ppp.Stopping {
@@ -568,6 +574,10 @@ func c06Sess6(f []string) string {
 			if !c06LCPOpened(s, bus, false) {
 				return "lcp-not-reopened"
 			}
+		case 'T':
+			if st := s.ipv6cp.FSM().State(); st == ppp.ReqSent || st == ppp.AckRcvd || st == ppp.AckSent {
+				s.ipv6cp.FSM().Timeout()
+			}
 		default:
 			return "badevent"
 		}
@@ -710,6 +720,10 @@ func c06SessL(f []string) string {
 			s.lcp.FSM().Input(ppp.ConfNak, rid, c06Bytes(ev[1:]))
 		case 'j':
 			s.lcp.FSM().Input(ppp.ConfRej, rid, c06Bytes(ev[1:]))
+		case 'T':
+			if st := s.lcp.FSM().State(); st == ppp.ReqSent || st == ppp.AckRcvd || st == ppp.AckSent {
+				s.lcp.FSM().Timeout()
+			}
 		default:
 			return "badevent"
 		}
